@@ -608,6 +608,9 @@ func (c *Ctx) typeKeyedLiteral(fn *ssa.Function, ta *ssa.TypeAssert) bool {
 	}
 	// the map is the initial value of one package-level variable
 	var g *ssa.Global
+	if table.Referrers() == nil {
+		return false
+	}
 	for _, ref := range *table.Referrers() {
 		if st, ok := ref.(*ssa.Store); ok && st.Val == table {
 			if gg, ok := st.Addr.(*ssa.Global); ok {
@@ -629,6 +632,9 @@ func (c *Ctx) typeKeyedLiteral(fn *ssa.Function, ta *ssa.TypeAssert) bool {
 					}
 					continue
 				}
+				if u.Referrers() == nil {
+					return false
+				}
 				for _, ref := range *u.Referrers() {
 					lk, ok := ref.(*ssa.Lookup)
 					if !ok || lk.X != ssa.Value(u) {
@@ -639,6 +645,9 @@ func (c *Ctx) typeKeyedLiteral(fn *ssa.Function, ta *ssa.TypeAssert) bool {
 						return false
 					}
 					var fv ssa.Value = lk
+					if lk.Referrers() == nil {
+						return false
+					}
 					for _, r2 := range *lk.Referrers() {
 						if ex, isEx := r2.(*ssa.Extract); isEx && ex.Index == 0 {
 							fv = ex
@@ -649,6 +658,9 @@ func (c *Ctx) typeKeyedLiteral(fn *ssa.Function, ta *ssa.TypeAssert) bool {
 						vals = append(vals, lk)
 					}
 					for _, v := range vals {
+						if v.Referrers() == nil {
+							return false
+						}
 						for _, r3 := range *v.Referrers() {
 							switch t := r3.(type) {
 							case *ssa.Extract:
